@@ -191,7 +191,11 @@ def build(cfg) -> Built:
     tname, uname = cfg.get("test", "P1"), cfg.get("trial", "P1")
     if itype == "dP" and (tname in DISCONTINUOUS or uname in DISCONTINUOUS) and not cfg.get("allow_rejected"):
         raise Inapplicable("vertex integrals of discontinuous elements are rejected by FFCx")
-    Vt = ufl.FunctionSpace(mesh, make_element(tname, cell, gdim, tp))
+    tmesh = mesh
+    if cfg.get("mesh2") == "two":
+        # parent mesh / sub-mesh of the same cells (codim 0): the test space lives on a second Mesh object with the same coordinate element
+        tmesh = ufl.Mesh(mesh.ufl_coordinate_element())
+    Vt = ufl.FunctionSpace(tmesh, make_element(tname, cell, gdim, tp))
     Vu = ufl.FunctionSpace(mesh, make_element(uname, cell, gdim, tp))
     V1 = ufl.FunctionSpace(mesh, tp_element(cell, 1) if tp else basix.ufl.element("P", cell, 1))
     V2 = ufl.FunctionSpace(mesh, tp_element(cell, 2) if tp else basix.ufl.element("P", cell, 2))
